@@ -4,6 +4,8 @@ package main
 // for tokens / JSON documents.
 
 import (
+	"strings"
+	"os"
 	"fmt"
 	"go/types"
 	"math/big"
@@ -55,6 +57,22 @@ func tagOf(v Value) string {
 	return t.S
 }
 
+var debugFixMap map[string]int
+
+func debugFix() map[string]int {
+	if debugFixMap == nil {
+		debugFixMap = map[string]int{}
+		for _, kv := range strings.Split(os.Getenv("VERIF_FIX"), ",") {
+			if i := strings.IndexByte(kv, '='); i > 0 {
+				v := 0
+				fmt.Sscanf(kv[i+1:], "%d", &v)
+				debugFixMap[kv[:i]] = v
+			}
+		}
+	}
+	return debugFixMap
+}
+
 func init() {
 	reg(nd("Bool"), func(ex *Exec, fn *ssa.Function, a []Value) Value { return ex.fresh(tagOf(a[0]), SBool, "input") })
 	reg(nd("Int"), func(ex *Exec, fn *ssa.Function, a []Value) Value {
@@ -74,8 +92,15 @@ func init() {
 	})
 	reg(nd("Choice"), func(ex *Exec, fn *ssa.Function, a []Value) Value {
 		n := ex.concreteInt(a[1], "Choice n")
-		d := ex.Choose(n)
 		tag := tagOf(a[0])
+		var d int
+		if fv, ok := debugFix()[tag]; ok {
+			// debugging aid only: the run is marked inconclusive
+			d = fv
+			ex.run.inconclusive("debug", "VERIF_FIX restricts choice "+tag)
+		} else {
+			d = ex.Choose(n)
+		}
 		k := ex.counters["choice:"+tag]
 		ex.counters["choice:"+tag] = k + 1
 		name := tag
